@@ -9,7 +9,9 @@ let err_word (e : int) : string = match e with
   | 20 -> "expected_SshfpAlgorithm" | 21 -> "expected_SshfpType" | 22 -> "expected_TlsaCertificateUsage"
   | 23 -> "expected_TlsaSelector" | 24 -> "expected_TlsaMatchingType"
   | 25 -> "trailing_Base_64_data" | 26 -> "illegal_Base_64_data" | 27 -> "incomplete_Base_64_data"
-  | 28 -> "generic_data_has_incorrect_length" | 99 -> "UNSUPPORTED" | n -> "E" ^ string_of_int n
+  | 28 -> "generic_data_has_incorrect_length"
+  | 29 -> "illegal_NSEC3_salt" | 30 -> "NSEC3_salt_too_long" | 31 -> "illegal_Base_32_data"
+  | 32 -> "short_Base_32_input" | 33 -> "NSEC3_owner_hash_too_long" | 34 -> "expected_Nsec3HashAlgorithm" | 99 -> "UNSUPPORTED" | n -> "E" ^ string_of_int n
 let show_entry = function
   | ERecord (o, c, t, r, d) ->
     Printf.sprintf "R:%s:%d:%d:%d:%s" (hex_of_bytes o) (int_of_n c) (int_of_n t) (int_of_n r) (hex_of_bytes d)
@@ -36,5 +38,13 @@ let handle = function
   | ["items"; h] ->
     let (is, e) = c07_items (bytes_of_hex h) in
     show_end (String.concat "" (List.map (fun x -> show_item x ^ " ") is)) e
+  | ["sym"; h] ->
+    let on f x = match f x with Some v -> Printf.sprintf "%x" (int_of_n v) | None -> "-" in
+    (match c07_sym (bytes_of_hex h) with
+     | SymEnd -> "End"
+     | SymErr -> "Err"
+     | SymOk (sy, n) ->
+       Printf.sprintf "Ok %s %d w%d o%s a%s c%s g%s" (show_sym sy) (int_of_nat n)
+         (if is_word_char sy then 1 else 0) (on into_octet sy) (on into_ascii sy) (on into_char sy) (on into_digit sy))
   | _ -> failwith "bad case line"
 let () = main handle
